@@ -213,27 +213,56 @@ func checkC14(h *hx.H, c c14Case) {
 		if err != nil {
 			h.Failf("unexpected-error", "the file set should compile: %v\n%s", err, dump())
 		}
-		// files: index has `mine`, x has `<glob>.style.fill: red` + `theirs`, imported by spread
-		triple := strings.Contains(files["x"], "***")
-		for _, o := range g.Objects {
-			fill := ""
-			if o.Style.Fill != nil {
-				fill = o.Style.Fill.Value
+		// files: index has `mine` (+ connections, a container, a layer), x has `theirs`, a
+		// connection and globs over objects and/or connections; imported by spread at the top
+		fieldTriple := strings.Contains(files["x"], "***.style.fill")
+		edgeTriple := strings.Contains(files["x"], "(*** -> ***)")
+		fieldAny := strings.Contains(files["x"], ".style.fill")
+		edgeAny := strings.Contains(files["x"], "[*].style.stroke")
+		var walk func(gr *d2graph.Graph, board string)
+		walk = func(gr *d2graph.Graph, board string) {
+			for _, o := range gr.Objects {
+				fill := ""
+				if o.Style.Fill != nil {
+					fill = o.Style.Fill.Value
+				}
+				switch o.ID {
+				case "theirs", "t2":
+					if fieldAny && fill != "red" && board == "" {
+						h.Failf("glob-not-applied-in-own-file", "the imported file's glob does not apply to its own object %s\n%s", o.ID, dump())
+					}
+				default:
+					if fieldTriple && fill != "red" {
+						h.Failf("triple-glob-does-not-reach-importer", "a *** glob of the imported file does not reach the importing file's object %s%s\n%s", board, o.AbsID(), dump())
+					}
+					if !fieldTriple && fill == "red" {
+						h.Failf("glob-leaks-into-importer", "a */** glob of the imported file reaches the importing file's object %s%s\n%s", board, o.AbsID(), dump())
+					}
+				}
 			}
-			switch o.ID {
-			case "theirs":
-				if fill != "red" {
-					h.Failf("glob-not-applied-in-own-file", "the imported file's glob does not apply to its own object\n%s", dump())
+			for _, e := range gr.Edges {
+				stroke := ""
+				if e.Style.Stroke != nil {
+					stroke = e.Style.Stroke.Value
 				}
-			case "mine", "late":
-				if triple && fill != "red" {
-					h.Failf("triple-glob-does-not-reach-importer", "a *** glob of the imported file does not reach the importing file's object %s\n%s", o.ID, dump())
+				if e.Src.ID == "theirs" {
+					if edgeAny && stroke != "red" && board == "" {
+						h.Failf("glob-not-applied-in-own-file", "the imported file's connection glob does not apply to its own connection\n%s", dump())
+					}
+					continue
 				}
-				if !triple && fill == "red" {
-					h.Failf("glob-leaks-into-importer", "a %s glob of the imported file reaches the importing file's object %s\n%s", "*/**", o.ID, dump())
+				if edgeTriple && stroke != "red" {
+					h.Failf("triple-glob-does-not-reach-importer", "a *** connection glob of the imported file does not reach the importing file's connection %s%s\n%s", board, e.AbsID(), dump())
 				}
+				if !edgeTriple && stroke == "red" {
+					h.Failf("glob-leaks-into-importer", "a */** connection glob of the imported file reaches the importing file's connection %s%s\n%s", board, e.AbsID(), dump())
+				}
+			}
+			for _, l := range gr.Layers {
+				walk(l, board+"layers."+l.Name+": ")
 			}
 		}
+		walk(g, "")
 		h.NonTrivial(true)
 		return
 	}
@@ -307,16 +336,28 @@ func genC14(t *rapid.T) c14Case {
 	case 1:
 		return genC14Cycle(t)
 	case 2:
-		g := rapid.SampledFrom([]string{"*", "**", "***"}).Draw(t, "glob")
-		late := ""
-		if rapid.Bool().Draw(t, "late") {
-			late = "late"
+		xl := []string{"theirs", "theirs -> t2"}
+		gl := func(label string) string { return rapid.SampledFrom([]string{"*", "**", "***"}).Draw(t, label) }
+		switch gen.Pick(t, "globforms", 2, 2, 2) {
+		case 0:
+			xl = append(xl, gl("fg")+".style.fill: red")
+		case 1:
+			g := gl("eg")
+			xl = append(xl, "("+g+" -> "+g+")[*].style.stroke: red")
+		default:
+			g := gl("eg")
+			xl = append(xl, gl("fg")+".style.fill: red", "("+g+" -> "+g+")[*].style.stroke: red")
+		}
+		if rapid.Bool().Draw(t, "globfirst") {
+			xl = append(xl[2:], xl[:2]...)
 		}
 		idx := c14File{Lines: []string{"mine"}, Imports: []c14Imp{{Kind: "spread", File: "x", Spell: "plain"}}}
-		if late != "" {
-			idx.Lines = append(idx.Lines, late)
+		for _, l := range []string{"late", "mine -> late", "box: {in1 -> in2}", "layers: {l: {f -> g}}"} {
+			if rapid.Bool().Draw(t, "idxline") {
+				idx.Lines = append(idx.Lines, l)
+			}
 		}
-		return c14Case{Kind: "globs", Files: map[string]c14File{"index": idx, "x": {Lines: []string{"theirs", g + ".style.fill: red"}}}}
+		return c14Case{Kind: "globs", Files: map[string]c14File{"index": idx, "x": {Lines: xl}}}
 	}
 	c := c14Case{Kind: "twin", Files: map[string]c14File{}}
 	all := []string{"x", "y", "sub/z"}
